@@ -71,3 +71,28 @@ let pexp_line line =
     let e = { pbraces = (b = "1"); pname = rs name; pop = rs op; pword = (if w = "-" then None else Some (rs w)) } in
     hexb (List.concat_map (fun r -> encode_rune r) (print_pexp e))
   | _ -> failwith "pexp: bad case"
+
+(* words with simple parameter expansions (Lex/Reprint2.v): skeleton in the harness notation, printed text, skeleton again *)
+let rec sk_rp (p : rp) : string =
+  let enc l = hexb (List.concat_map (fun r -> encode_rune r) l) in
+  match p with
+  | RL t -> "L" ^ enc t
+  | RQ (tok, v) -> "Q" ^ enc [tok] ^ (match v with [] -> "N" | _ -> sk_rps v)
+  | RP n -> "P0{" ^ enc n ^ "::N}"
+and sk_rps (l : rp list) : string = "[" ^ String.concat "," (List.map sk_rp l) ^ "]"
+
+let rword2_line line =
+  match String.split_on_char '\t' line with
+  | h :: _ ->
+    let rs = runes_of_string (string_of_hex h) @ [n_of_int 10] in
+    (match scan_word2 (nat_of_int (2 * List.length rs + 4)) rs [] with
+     | Some ([], _) -> "noarg"
+     | Some (w, rest) ->
+       let tail = " " ^ string_of_int (List.length rest) in
+       let p = print_parts2 w in
+       let ph = hexb (List.concat_map (fun r -> encode_rune r) p) in
+       (match scan_word2 (nat_of_int (2 * List.length p + 6)) (p @ [n_of_int 10]) [] with
+        | Some (w2, _) -> sk_rps w ^ " " ^ ph ^ " " ^ sk_rps w2 ^ tail
+        | None -> sk_rps w ^ " " ^ ph ^ " none" ^ tail)
+     | None -> "unmodelled")
+  | _ -> failwith "rword2: bad case"
